@@ -138,7 +138,13 @@ impl IndexRead {
     /// skipping any that are not present.
     pub async fn iter_available_hunks(self) -> IndexHunkIter {
         let _span = debug_span!("iter_hunks", ?self.transport).entered();
-        let hunks = self.hunks_available().await.expect("hunks available"); // TODO: Don't panic
+        let hunks = match self.hunks_available().await {
+            Ok(hunks) => hunks,
+            Err(err) => {
+                error!("Failed to list index hunks: {err}");
+                Vec::new()
+            }
+        };
         debug!(?hunks);
         IndexHunkIter {
             hunks: hunks.into_iter(),
